@@ -12,8 +12,8 @@ from .C17 import SymRng, _RandomNS
 PROPERTY = "C18"
 TAU_DB = 1.25
 META = {
-    "bounds": {"quick": "white: symbolic psd, fs; fftnoise: spectra of N=2..9 symbolic complex bins with symbolic unit phasors; band_limited_noise: N in {4,5,8,9} with symbolic band edges and sample rate; shaping filter: 4 configurations (alpha in {0.5,1,2} at (100,0.01,10) and 1.5 at (2,1e-3,1)), for each the real constructor's coefficients are taken as exact rationals and the band [2*fmin_eff, fmax_eff/2] is covered by cells (50 per decade; the cell width is part of the tolerance: a cell's target interval is [f_b^-alpha*10^(-tau/10), f_a^-alpha*10^(tau/10)]) on each of which the solver decides EVERY frequency",
-               "thorough": "13 configurations (alpha in {0.01,0.25,0.5,1,1.5,2} x 2 band set-ups, plus alpha=1 over 3.3 decades at fs=1000), 100 cells per decade"},
+    "bounds": {"quick": "white: symbolic psd, fs; fftnoise: spectra of N=2..9 symbolic complex bins with symbolic unit phasors; band_limited_noise: N in {4,5,8,9} with symbolic band edges and sample rate; shaping filter: 6 configurations (alpha in {0.5,1,2} at (100,0.01,10), 1.5 at (2,1e-3,1), alpha=2 on bands wholly above and wholly below 1 Hz), for each the real constructor's coefficients are taken as exact rationals and the band [2*fmin_eff, fmax_eff/2] is covered by cells (50 per decade; the cell width is part of the tolerance: a cell's target interval is [f_b^-alpha*10^(-tau/10), f_a^-alpha*10^(tau/10)]) on each of which the solver decides EVERY frequency",
+               "thorough": "16 configurations (alpha in {0.01,0.25,0.5,1,1.5,2} x 2 band set-ups, alpha=1 over 3.3 decades at fs=1000, three bands not containing 1 Hz), 100 cells per decade"},
     "outside": ["(alpha, fs, fmin, fmax) off the grid", "bands reaching below 1.6e-4*fs (the response is a rational function of cos(omega); cell enclosures are widened by 1e-12, which needs 1-cos(omega) >> 1e-12)", "the two corner octaves (a cascade of first-order sections is 3*alpha/2 dB off at a corner by construction)", "numpy's ifft (the property is stated on the array handed to it)"],
     "stubs": ["np.fft.ifft -> captures its argument", "np.fft.fftfreq -> the documented grid k/(N*d)", "rng.random -> fresh symbols; cos/sin of the random phase -> a symbolic unit phasor"],
     "assumptions": ["reading of 'about 1 dB between its lower and upper corner': within %.2f dB on [2*fmin_eff, fmax_eff/2] (fixed before looking at what passes, DESIGN.md section 4 C18)" % TAU_DB],
@@ -305,10 +305,11 @@ def obligations(tier):
     for N in ((4, 5, 8, 9) if tier == "quick" else (2, 3, 4, 5, 6, 7, 8, 9, 12)):
         obs.append({"name": "band_limited/N%d" % N, "fn": "ob_band", "params": {"N": N}, "fork": True, "max_paths": 64, "weight": N})
     if tier == "quick":
-        grid = [(a, 100.0, 0.01, 10.0) for a in (0.5, 1.0, 2.0)] + [(1.5, 2.0, 1e-3, 1.0)]
+        # (the last two: bands lying wholly above / wholly below 1 Hz -- the level must not be tied to a fixed reference frequency)
+        grid = [(a, 100.0, 0.01, 10.0) for a in (0.5, 1.0, 2.0)] + [(1.5, 2.0, 1e-3, 1.0), (2.0, 1000.0, 10.0, 200.0), (2.0, 10.0, 1e-2, 0.3)]
         per = 50
     else:
-        grid = [(a, fs, fmin, fmax) for a in (0.01, 0.25, 0.5, 1.0, 1.5, 2.0) for (fs, fmin, fmax) in ((100.0, 0.01, 10.0), (2.0, 1e-3, 1.0))] + [(1.0, 1000.0, 0.2, 400.0)]
+        grid = [(a, fs, fmin, fmax) for a in (0.01, 0.25, 0.5, 1.0, 1.5, 2.0) for (fs, fmin, fmax) in ((100.0, 0.01, 10.0), (2.0, 1e-3, 1.0))] + [(1.0, 1000.0, 0.2, 400.0), (2.0, 1000.0, 10.0, 200.0), (1.5, 1000.0, 5.0, 300.0), (2.0, 10.0, 1e-2, 0.3)]
         per = 100
     for (a, fs, fmin, fmax) in grid:
         d = config(a, fs, fmin, fmax)
